@@ -1,13 +1,16 @@
 import FH.DwarfSpec
 import FH.Hist
+import FH.RelocLemmas
+import FH.RelocA64
 /-!
 # C08 — Position independence under module relocation and stack relocation
 
 Module relocation is proved in full for the model: the module search and everything after
-it depend on the mapped range only through `address - base`. Stack relocation is proved at
-the level of the DWARF step (`dwarfSpec`, which the C05 theorems identify with both execution
-paths) for stacks whose stored words are relocated consistently (`σ`); the whole-walk statement
-is established by the `scn` engine's relocation twins, not by a theorem (`…_partial`).
+it depend on the mapped range only through `address - base`. Stack relocation is proved for
+rule execution - every rule of both architectures, every outcome - and lifted to whole walks of
+any length by induction (`C08_x64_walk_relocation`, `C08_a64_walk_relocation`); for the
+uncacheable DWARF path it is proved at the level of the DWARF step (`dwarfSpec`, which the C05
+theorems identify with both execution paths; `…_partial`).
 -/
 namespace FH
 
@@ -161,5 +164,107 @@ theorem C08_dwarf_step_stack_relocation_partial (row : Row) (sp fp curRa d : Nat
     have : ((fp + d : Nat) : Int) + r = ((fp : Int) + r) + d := by omega
     rw [this]
     exact go _
+
+
+/-! ## Stack relocation of rule execution and of whole walks (x86-64)
+
+`σ` says how each stored word moves (stack pointers by `d`, code pointers with their module,
+data and nulls not at all); all the theorems need of it is that it is injective and fixes 0. -/
+
+/-- **One x86-64 rule step, any rule, relocated stack and code.** The step on the relocated
+thread state is the relocated outcome of the step on the original state: frames are mapped by
+`σ`, `rsp` moves by `d`, every other register holds the relocated word, an unreadable address is
+named `d` higher, errors and end of stack are unchanged. -/
+theorem C08_x64_rule_step_relocation (σ : Nat → Nat) (d : Nat) (hσ : Function.Injective σ)
+    (h0 : σ 0 = 0) {mem mem' : Mem} (hm : MemReloc σ d mem mem') (rule : RuleX64) (hr : rule.WF)
+    (first : Bool) (regs : RegsX64) (hsp : Room d regs.sp)
+    (hbp : usesBpX64 rule first = true → regs.bp ≠ 0 → σ regs.bp = regs.bp + d ∧ Room d regs.bp) :
+    execX64 rule first (relocX64 σ d regs) mem' = relocOutX64 σ d (execX64 rule first regs mem) :=
+  execX64_reloc σ d hσ h0 hm rule hr first regs hsp hbp
+
+/-- The step function of an x86-64 walk whose `i`-th frame is unwound by the rule `rules i`. -/
+def ruleWalkStepX64 (rules : Nat → RuleX64) : Mem → (Nat × RegsX64) → Out (Nat × RegsX64) :=
+  fun m s =>
+    match execX64 (rules s.1) (s.1 == 0) s.2 m with
+    | .ret r g => .ret r (s.1 + 1, g)
+    | .panic p => .panic p
+
+/-- **Whole walks (x86-64, any length, any assignment of rules to frames).** If at every frame
+the walk on the original stack visits, the stack pointer has room and a frame pointer the rule
+follows is a stack pointer (or null), the walk on the relocated stack and code is the relocated
+walk: the same number of frames, each mapped by `σ`, the same ending (an unreadable address named
+`d` higher). By C08_static_rule_relocation_invariant the rule assignment itself is the same
+for relocated modules. -/
+theorem C08_x64_walk_relocation (σ : Nat → Nat) (d : Nat) (hσ : Function.Injective σ)
+    (h0 : σ 0 = 0) {mem mem' : Mem} (hm : MemReloc σ d mem mem') (rules : Nat → RuleX64)
+    (hr : ∀ i, (rules i).WF) (n : Nat) (regs : RegsX64)
+    (hP : AlongWalk (ruleWalkStepX64 rules) mem
+      (fun s => Room d s.2.sp ∧ (usesBpX64 (rules s.1) (s.1 == 0) = true → s.2.bp ≠ 0 →
+        σ s.2.bp = s.2.bp + d ∧ Room d s.2.bp)) n (0, regs)) :
+    walkWith (ruleWalkStepX64 rules) mem' n (0, relocX64 σ d regs) =
+      (walkWith (ruleWalkStepX64 rules) mem n (0, regs)).map (relocRes σ d) := by
+  have := walk_sim (ruleWalkStepX64 rules) mem mem' (fun s => (s.1, relocX64 σ d s.2))
+    (relocRes σ d) (relocRes_frame σ d) (relocRes_not_frame σ d) _ ?_ n (0, regs) hP
+  · exact this
+  · intro s ⟨h1, h2⟩
+    simp only [ruleWalkStepX64]
+    rw [execX64_reloc σ d hσ h0 hm (rules s.1) (hr s.1) (s.1 == 0) s.2 h1 h2]
+    cases execX64 (rules s.1) (s.1 == 0) s.2 mem <;> rfl
+
+/-- Non-vacuity: a frame-pointer frame on a stack at 0x7ffc_0000_1000, moved 2^32 bytes up
+together with the code it returns into (moved by 0x1000), satisfies the hypotheses, and the step
+is a real frame. -/
+example :
+    let d := 4294967296
+    let σ : Nat → Nat := fun v => if 0x7ffc00000000 ≤ v ∧ v < 0x7ffd00000000 then v + d else
+      if 0x400000 ≤ v ∧ v < 0x500000 then v + 0x1000 else v
+    let mem : Mem := fun a => if a = 0x7ffc00001000 then some 0x7ffc00001040 else
+      if a = 0x7ffc00001008 then some 0x401234 else none
+    let regs : RegsX64 := { ip := 0x400100, r := fun i => if i = RSP then 0x7ffc00000ff0 else
+      if i = RBP then 0x7ffc00001000 else 0 }
+    Room d regs.sp ∧ σ regs.bp = regs.bp + d ∧ Room d regs.bp ∧ σ 0 = 0 ∧
+      ∃ g, execX64 .useFramePointer false regs mem = .ret (.frame 0x401234) g := by
+  refine ⟨by simp [Room, RegsX64.sp, RSP, U64], by simp [RegsX64.bp, RBP, RSP],
+    by simp [Room, RegsX64.bp, RBP, RSP, U64], by simp, ?_⟩
+  refine ⟨{ ip := 0x401234, r := setReg (setReg (fun i => if i = RSP then 0x7ffc00000ff0 else
+      if i = RBP then 0x7ffc00001000 else 0) RSP 0x7ffc00001010) RBP 0x7ffc00001040 }, ?_⟩
+  simp [execX64, fpStepX64, finishX64, cadd, RegsX64.sp, RegsX64.bp, RSP, RBP, U64]
+
+
+/-! ## aarch64 -/
+
+/-- **One aarch64 rule step, any rule, relocated stack and code.** Beyond the x86-64
+hypotheses: relocation commutes with stripping the pointer-authentication bits (`σ` moves pointers
+within the mask), the frame pointer a rule follows is a stack pointer, and so is the non-null
+caller frame pointer in the slot the rule reads (the frame pointer rules compare the two). -/
+theorem C08_a64_rule_step_relocation (σ : Nat → Nat) (d : Nat) (hσ : Function.Injective σ)
+    (h0 : σ 0 = 0) {mem mem' : Mem} (hm : MemReloc σ d mem mem') (rule : RuleA64) (hr : rule.WF)
+    (first : Bool) (regs : RegsA64)
+    (hstrip : ∀ v, strip regs.mask (σ v) = σ (strip regs.mask v)) (hsp : Room d regs.sp)
+    (hfp : usesFpA64 rule first = true → σ regs.fp = regs.fp + d ∧ Room d regs.fp)
+    (hsaved : ∀ a v, fpSlotA64 rule first regs = some a → mem a = some v → v ≠ 0 → σ v = v + d) :
+    execA64 rule first (relocA64 σ d regs) mem' = relocOutA64 σ d (execA64 rule first regs mem) :=
+  execA64_reloc σ d hσ h0 hm rule hr first regs hstrip hsp hfp hsaved
+
+/-- **Whole walks (aarch64, any length, any assignment of rules to frames).** -/
+theorem C08_a64_walk_relocation (σ : Nat → Nat) (d mask : Nat) (hσ : Function.Injective σ)
+    (h0 : σ 0 = 0) {mem mem' : Mem} (hm : MemReloc σ d mem mem') (rules : Nat → RuleA64)
+    (hr : ∀ i, (rules i).WF) (hstrip : ∀ v, strip mask (σ v) = σ (strip mask v))
+    (n : Nat) (regs : RegsA64)
+    (hP : AlongWalk (ruleWalkStepA64 rules) mem
+      (fun s => s.2.mask = mask ∧ Room d s.2.sp ∧
+        (usesFpA64 (rules s.1) (s.1 == 0) = true → σ s.2.fp = s.2.fp + d ∧ Room d s.2.fp) ∧
+        (∀ a v, fpSlotA64 (rules s.1) (s.1 == 0) s.2 = some a → mem a = some v → v ≠ 0 →
+          σ v = v + d)) n (0, regs)) :
+    walkWith (ruleWalkStepA64 rules) mem' n (0, relocA64 σ d regs) =
+      (walkWith (ruleWalkStepA64 rules) mem n (0, regs)).map (relocRes σ d) := by
+  have := walk_sim (ruleWalkStepA64 rules) mem mem' (fun s => (s.1, relocA64 σ d s.2))
+    (relocRes σ d) (relocRes_frame σ d) (relocRes_not_frame σ d) _ ?_ n (0, regs) hP
+  · exact this
+  · intro s ⟨hmask, h1, h2, h3⟩
+    simp only [ruleWalkStepA64]
+    rw [execA64_reloc σ d hσ h0 hm (rules s.1) (hr s.1) (s.1 == 0) s.2
+      (by rw [hmask]; exact hstrip) h1 h2 h3]
+    cases execA64 (rules s.1) (s.1 == 0) s.2 mem <;> rfl
 
 end FH
